@@ -6,6 +6,7 @@ import (
 	"io"
 	"runtime"
 	"sync"
+	"sync/atomic"
 	"testing"
 	"time"
 
@@ -39,19 +40,31 @@ type parkCarrier struct {
 	wire    []byte
 	inbox   []byte
 	closed  bool
-	park    bool
+	park    atomic.Bool
 	parked  chan int
 	release chan struct{}
+	// the read side's ways to fail (set by the harness, no clock involved)
+	peerEOF  bool // the peer hung up
+	timedOut bool // the armed read deadline has expired
+	dlArmed  bool
+	dlFail   bool // SetReadDeadline fails
 }
 
+type parkTimeout struct{}
+
+func (parkTimeout) Error() string   { return "parkcarrier: i/o timeout" }
+func (parkTimeout) Timeout() bool   { return true }
+func (parkTimeout) Temporary() bool { return true }
+
 func newParkCarrier(park bool) *parkCarrier {
-	c := &parkCarrier{park: park, parked: make(chan int), release: make(chan struct{})}
+	c := &parkCarrier{parked: make(chan int), release: make(chan struct{})}
+	c.park.Store(park)
 	c.cond = sync.NewCond(&c.mu)
 	return c
 }
 
 func (c *parkCarrier) Write(p []byte) (int, error) {
-	if c.park {
+	if c.park.Load() {
 		c.parked <- len(p) // the bytes have not been looked at yet
 		<-c.release
 	}
@@ -67,8 +80,11 @@ func (c *parkCarrier) Write(p []byte) (int, error) {
 func (c *parkCarrier) Read(p []byte) (int, error) {
 	c.mu.Lock()
 	defer c.mu.Unlock()
-	for len(c.inbox) == 0 && !c.closed {
+	for len(c.inbox) == 0 && !c.closed && !c.peerEOF && !(c.timedOut && c.dlArmed) {
 		c.cond.Wait()
+	}
+	if c.timedOut && c.dlArmed && !c.closed {
+		return 0, parkTimeout{}
 	}
 	if len(c.inbox) > 0 {
 		n := copy(p, c.inbox)
@@ -76,6 +92,30 @@ func (c *parkCarrier) Read(p []byte) (int, error) {
 		return n, nil
 	}
 	return 0, io.EOF
+}
+
+func (c *parkCarrier) isClosed() bool {
+	c.mu.Lock()
+	defer c.mu.Unlock()
+	return c.closed
+}
+
+// breakRead makes the read side fail in one of its ways
+func (c *parkCarrier) breakRead(how string) {
+	c.mu.Lock()
+	switch how {
+	case "peer-eof":
+		c.peerEOF = true
+	case "read-timeout":
+		c.timedOut = true
+	case "garbage":
+		c.inbox = append(c.inbox, 0x00, 0x00) // type 0: no such packet
+	case "deadline-reset-fails":
+		c.dlFail = true
+		c.inbox = append(c.inbox, enc(packet.NewPingreq())...) // a good packet; the re-arming of the deadline after it fails
+	}
+	c.cond.Broadcast()
+	c.mu.Unlock()
 }
 
 func (c *parkCarrier) Close() error {
@@ -86,7 +126,15 @@ func (c *parkCarrier) Close() error {
 	return nil
 }
 
-func (c *parkCarrier) SetReadDeadline(time.Time) error { return nil }
+func (c *parkCarrier) SetReadDeadline(t time.Time) error {
+	c.mu.Lock()
+	defer c.mu.Unlock()
+	if c.dlFail {
+		return errors.New("parkcarrier: injected deadline failure")
+	}
+	c.dlArmed = !t.IsZero()
+	return nil
+}
 
 func (c *parkCarrier) feed(b []byte) {
 	c.mu.Lock()
@@ -277,11 +325,121 @@ func poolCase(o *out.W, r *gen.Rng) {
 	}
 }
 
-// poolFamily runs the buffer-ownership cases on one P and puts GOMAXPROCS back
+// ---------------------------------------------------------------- a receive error while a send is stuck in the carrier
+//
+// "After … any send or receive error or an expired read timeout no call blocks": the peer has
+// stopped reading (the carrier's Write is parked inside a Send, which holds sendMutex) and now the
+// receive side fails — the read timeout expires, the peer hangs up, undecodable bytes arrive, or
+// re-arming the deadline fails.  Receive must return its error and close the carrier WHILE the
+// write is still parked (closing the carrier is what frees a writer stuck on a real socket); the
+// parked Send must return once its write is let go, and later calls must fail without waiting.
+// Channel handshakes only; the real-time bound below is spent only when the property is violated.
+//
+//  receive-blocked-behind-send   Receive did not return its error (or left the carrier open) while
+//                                a Send was parked inside the carrier write
+//  call-blocked                  the parked Send / a later call did not return
+
+const stallBound = 1500 * time.Millisecond
+
+func stallCase(o *out.W, r *gen.Rng, how string) {
+	o.Case("C19 receive error behind a stuck send: " + how)
+	o.Op("# stuck send "+how, "# stuck send "+how)
+	var trace []string
+	hit := func(kind, detail string) { o.Monitor("C19", kind, how+": "+detail, append([]string{}, trace...)) }
+	car := newParkCarrier(true)
+	A := transport.NewBaseConn(car)
+	A.SetReadTimeout(time.Hour) // arms the carrier's deadline; it "expires" when the harness says so
+	async := r.Bool()
+	if r.Bool() {
+		A.SetMaxWriteDelay(time.Hour)
+	}
+	size := 4200 + r.Intn(5000) // goes to the carrier straight away, whatever the mode
+	trace = append(trace, fmt.Sprintf("A.Send(%d-byte PUBLISH, async=%v) is parked inside carrier.Write (peer not reading); then the read side fails: %s", size, async, how))
+
+	recvDone := make(chan error, 1)
+	go func() {
+		for {
+			_, err := A.Receive()
+			if err != nil {
+				recvDone <- err
+				return
+			}
+		}
+	}()
+	sendDone := make(chan error, 1)
+	go func() { sendDone <- A.Send(uPacket("a/1", 1, 1, size), async) }()
+	select {
+	case <-car.parked:
+	case <-time.After(stallBound):
+		hit("call-blocked", "the send never reached the carrier")
+		return
+	}
+	// the write is parked: Send holds sendMutex.  Now the receive side fails.
+	car.breakRead(how)
+	recvReturned := false
+	select {
+	case err := <-recvDone:
+		recvReturned = true
+		if err == nil {
+			hit("receive-blocked-behind-send", "Receive returned without an error")
+		}
+		if !car.isClosed() {
+			hit("receive-blocked-behind-send", "Receive returned its error but the carrier is still open while the write is parked")
+		}
+	case <-time.After(stallBound):
+		hit("receive-blocked-behind-send", fmt.Sprintf("Receive has not returned %v after the read side failed while a Send is parked inside the carrier write; carrier closed: %v", stallBound, car.isClosed()))
+	}
+	// let the parked write go (later writes do not park)
+	car.park.Store(false)
+	car.release <- struct{}{}
+	select {
+	case err := <-sendDone:
+		if recvReturned && err == nil {
+			hit("error-left-carrier-open", "the parked Send succeeded although Receive had failed (carrier should have been closed)")
+		}
+	case <-time.After(stallBound):
+		hit("call-blocked", "the parked Send did not return after its carrier write was let go")
+	}
+	if !recvReturned {
+		select {
+		case <-recvDone:
+		case <-time.After(stallBound):
+			hit("call-blocked", "Receive still has not returned after the parked Send finished")
+		}
+	}
+	// afterwards nothing waits and everything fails
+	after := make(chan string, 1)
+	go func() {
+		res := ""
+		if err := A.Send(uPacket("a/1", 1, 2, 10), false); err == nil {
+			res += "flushed send succeeded; "
+		}
+		if _, err := A.Receive(); err == nil {
+			res += "receive succeeded; "
+		}
+		_ = A.Close()
+		after <- res
+	}()
+	select {
+	case res := <-after:
+		if res != "" {
+			hit("send-ok-after-error", "after the receive error: "+res)
+		}
+	case <-time.After(stallBound):
+		hit("call-blocked", "Send / Receive / Close after the receive error did not return")
+	}
+	o.Count("stall/" + how)
+}
+
+// poolFamily runs the parking-carrier cases on one P and puts GOMAXPROCS back
 func poolFamily(t *testing.T, o *out.W, r *gen.Rng, n int) {
 	old := runtime.GOMAXPROCS(1)
 	defer runtime.GOMAXPROCS(old)
 	for i := 0; i < n; i++ {
 		poolCase(o, r.Fork())
+	}
+	hows := []string{"read-timeout", "peer-eof", "garbage", "deadline-reset-fails"}
+	for i := 0; i < n; i++ {
+		stallCase(o, r.Fork(), hows[i%len(hows)])
 	}
 }
